@@ -41,6 +41,8 @@ fn prose(kind: &str, n: usize) -> String {
     "code-ebnf" => "```ebnf\nX := A | B, C ;\n```\n".to_string(),
     "code-shell" => "```\n$ cargo build --release\n```\n".to_string(),
     "comment" => "-- a comment line about x\n".to_string(),
+    // comments whose text goes on, after a semicolon, with something that would be a statement
+    k if k.starts_with("comment-code-") => { let v = &k["comment-code-".len()..]; match n % 3 { 0 => format!("-- remember this; {} = 77\n", v), 1 => format!("// see above; {} += 5\n", v), _ => format!("-- a; b; {} = 1; {} = 2\n", v, v) } }
     _ => "Plain prose.\n".to_string(),
   }
 }
@@ -54,6 +56,8 @@ pub fn source(case: &str) -> String {
     let (k, rest) = el.split_once(':').unwrap();
     match k {
       "C" => { out.push_str(&stmt_src(rest)); out.push_str("\n\n"); }
+      // a code line with a trailing comment that goes on with statement-like text after a semicolon
+      "T" => { let (v, st) = rest.split_once(':').unwrap(); out.push_str(&stmt_src(st)); out.push_str(&if n % 2 == 0 { format!(" -- set once; {} = 7\n\n", v) } else { format!(" // later; {} += 1\n\n", v) }); }
       "F" => { let (name, body) = rest.split_once(':').unwrap();
                let tag = match name { "-" => "mech".to_string(), "!" => "mech:disabled".to_string(), "#" => "mech:hidden".to_string(), "%" => "mech{output: false}".to_string(), nm => format!("mech:{}", nm) };
                out.push_str(&format!("```{}\n", tag));
@@ -138,13 +142,17 @@ pub fn generate(seed: u64, thorough: bool, sink: &mut Sink) -> Vec<String> {
     if rng.chance(1, 2) { els.push("X:title".into()); }
     for i in 0..len {
       match rng.below(10) {
+        0 | 1 | 2 if rng.chance(1, 6) => { let v = if main_muts.is_empty() { "x".to_string() } else { rng.pick(&main_muts).clone() };
+                       if els.last().map(|e| e == "X:list").unwrap_or(false) { els.push("X:para".into()); } else { els.push(format!("X:comment-code-{}", v)); } sink.hit("element:comment-with-code-after-semicolon"); }
         0 | 1 | 2 => { let mut k = *rng.pick(&prose_kinds);
                        // a comment line directly after a list does not parse at this commit
                        if k == "comment" && els.last().map(|e| e == "X:list").unwrap_or(false) { k = "para"; }
                        els.push(format!("X:{}", k)); sink.hit("element:prose"); }
         3 | 4 | 5 => { let bad = errors == 1 && i >= err_at && rng.chance(1, 2);
                        let foreign: Vec<String> = ns_vars.iter().flat_map(|v| v.0.clone()).filter(|v| !main_vars.contains(v)).collect();
-                       els.push(format!("C:{}", gen_stmt(&mut rng, &mut main_vars, &mut main_muts, &["x", "y", "z", "w", "u", "v"], &foreign, bad))); sink.hit("element:code-line"); }
+                       let st = gen_stmt(&mut rng, &mut main_vars, &mut main_muts, &["x", "y", "z", "w", "u", "v"], &foreign, bad);
+                       if !bad && !main_muts.is_empty() && rng.chance(1, 5) { let v = rng.pick(&main_muts).clone(); els.push(format!("T:{}:{}", v, st)); sink.hit("element:code-line-with-trailing-comment"); }
+                       else { els.push(format!("C:{}", st)); sink.hit("element:code-line"); } }
         6 => { let k = 1 + rng.below(3) as usize; let mut ss = vec![];
                for _ in 0..k { ss.push(gen_stmt(&mut rng, &mut main_vars, &mut main_muts, &["x", "y", "z", "w", "u", "v"], &[], false)); }
                // a plain fence, a hidden one or one with its output switched off: all of them code of the unnamed program
